@@ -299,3 +299,30 @@ CHECKS["C13"] = {
         "the faulty sender can only use signatures it obtained through signature requests, its own signatures and garbage",
     ],
 }
+
+# ---------------------------------------------------------------------------------------------------------------
+CHECKS["C18"] = {
+    "pkg": "./core/dutydb",
+    "parallel": 4,
+    "quick": [
+        {"pkg": "./core/dutydb", "harness": "VerifC18DutyDB", "params": {}},
+        {"pkg": "./core/parsigdb", "harness": "VerifC18ParSigDB", "params": {}},
+        {"pkg": "./core/aggsigdb", "harness": "VerifC18AggSigDB", "params": {}},
+        {"pkg": "./core/sigagg", "harness": "VerifC18SigAgg", "params": {}},
+    ],
+    "thorough": [
+        {"pkg": "./core/dutydb", "harness": "VerifC18DutyDB", "params": {}, "cross": True},
+        {"pkg": "./core/parsigdb", "harness": "VerifC18ParSigDB", "params": {}, "cross": True},
+        {"pkg": "./core/aggsigdb", "harness": "VerifC18AggSigDB", "params": {}, "cross": True},
+        {"pkg": "./core/sigagg", "harness": "VerifC18SigAgg", "params": {}, "cross": True},
+    ],
+    "bounds": {
+        "quick": "object-identity (may-alias) queries over the engine's heap after one concrete operation sequence per component with symbolic contents: dutydb (store attestation, mutate input, read x3 incl. committee-0 alias, mutate result, read), parsigdb (two internal stores reaching threshold 2 of 3, two internal and two threshold subscribers; inputs / stored entries / every subscriber's objects pairwise), aggsigdb MemDBV2 (store, mutate input, read x2, mutate result, read), sigagg (two subscribers)",
+        "thorough": "same with both solvers",
+    },
+    "outside": "whether the real Clone implementations (JSON/SSZ round trips) are deep: Clone is a structural deep copy in the engine, so the claim is 'components clone at every boundary'; dutydb proposal / aggregate / sync-contribution reads (AwaitProposal and AwaitSyncContribution hand out the stored pointer just like AwaitAttestation did before the repair - same family, not encoded); aggsigdb v1 wrappers; fetcher, scheduler, validatorapi fan-outs",
+    "assumptions": [
+        "harness SignedData types with reference semantics make a missing Clone visible as shared memory",
+        "Clone() of charon core data types = structural deep copy",
+    ],
+}
